@@ -42,7 +42,7 @@ Print Assumptions C06_T4_no_stale.
 (* non-vacuity: a session with a null answer, a recycled id and two clouds *)
 Example C06_nonvacuous :
   let d := desc_RS32 in
-  let c := mk_dcfg false false 3 0 12 dy_zero dy_zero 0 36000 true false true 0 0 0 false in
+  let c := mk_dcfg false false 3 0 12 dy_zero dy_zero 0 36000 true false true 0 0 0 false [] in
   let mk az := [85;170;5;10;90;165;80;160] ++ repeat 0 34 ++
                flat_map (fun k => [255;238; (az + 20 * k) / 256; (az + 20 * k) mod 256] ++ repeat 7 96) (map Z.of_nat (seq 0 12)) ++ repeat 0 6 in
   let '(v0, th, o0) := init_drv d c [Some 1; None; Some 2; Some 1] 1000 [] 10 in
